@@ -72,9 +72,10 @@ def grid_int(x, unit):
 
 
 def same_time(a, b, unit):
-    na, _ = grid_int(a, unit)
+    """the re-read time is on the grid of the format and is the original within half a unit (a value that already is
+    on the grid therefore comes back exactly; rasters like 6.4 us or 0.5 us hold values the format can only round)"""
     nb, okb = grid_int(b, unit)
-    return na == nb and okb
+    return okb and abs(F(float(b)) - F(float(a))) <= unit / 2 + GRID_TOL
 
 
 def rel_close(a, b):
@@ -135,7 +136,8 @@ def compare_blocks(b1, b2, step):
             return 'rf-shape', {}
         if not arr_times_equal(r1.t, r2.t):
             return 'rf-t', {'orig': [float(v) for v in r1.t[:3]], 'reread': [float(v) for v in r2.t[:3]]}
-        if not same_time(r1.delay, r2.delay, US):
+        # the RF delay column is '{:g}' of microseconds (6 significant digits), not an integer column
+        if abs(F(float(r2.delay)) - F(float(r1.delay))) > max(REL * abs(F(float(r1.delay))), GRID_TOL):
             return 'rf-delay', {'orig': float(r1.delay), 'reread': float(r2.delay)}
         if not same_time(r1.shape_dur, r2.shape_dur, NS):
             return 'rf-shape_dur', {'orig': float(r1.shape_dur), 'reread': float(r2.shape_dur)}
@@ -197,16 +199,15 @@ def compare_blocks(b1, b2, step):
         return Counter((l.type, l.label, int(l.value)) for l in (b.label or {}).values())
 
     def trigs(b):
-        c = Counter()
-        for t in getattr(b, 'trigger', {}).values():
-            nd, okd = grid_int(t.delay, US)
-            nu, oku = grid_int(t.duration, US)
-            c[(t.type, t.channel, nd, nu, okd and oku)] += 1
-        return c
+        return sorted(((t.type, t.channel, float(t.delay), float(t.duration)) for t in getattr(b, 'trigger', {}).values()))
+
+    def trigs_equal(l1, l2):
+        return len(l1) == len(l2) and all(x[0] == y[0] and x[1] == y[1] and same_time(x[2], y[2], US) and same_time(x[3], y[3], US)
+                                          for x, y in zip(l1, l2))
     if labs(b1) != labs(b2):
         return 'labels', {'orig': sorted(map(str, labs(b1).elements())), 'reread': sorted(map(str, labs(b2).elements()))}
-    if trigs(b1) != trigs(b2):
-        return 'triggers', {'orig': sorted(map(str, trigs(b1).elements())), 'reread': sorted(map(str, trigs(b2).elements()))}
+    if not trigs_equal(trigs(b1), trigs(b2)):
+        return 'triggers', {'orig': [str(x) for x in trigs(b1)], 'reread': [str(x) for x in trigs(b2)]}
     return None
 
 
@@ -295,6 +296,8 @@ def one_case(ctx, index, want_model=True):
     ctx.count('events.grad_nonzero_edge', nz)
     ctx.count('reuse.connected_events_reused', getattr(seq, '_gen_reused', 0))
     ctx.count('reuse.rescaled_twins_same_file_row', getattr(seq, '_gen_twins', 0))
+    ctx.count('twins.value_below_print_precision', getattr(seq, '_gen_value_twins', 0))
+    ctx.count('araster_w.%g' % sysw.adc_raster_time)
     tr = 0
     for k, v in seq.grad_library.data.items():
         cols = [v[3]] if seq.grad_library.type[k] == 'g' else list(v[1:])
@@ -337,9 +340,12 @@ def flush(ctx, pend):
         if ow.startswith(('EXC', 'UNKNOWN')) or orr.startswith(('EXC', 'UNKNOWN')):
             ctx.mismatch('model-error', p['case'], {'write': ow[:200], 'read': orr[:200]})
             continue
-        bad = filemodel.compare_write(filemodel.decode_write(ow), p['tok'])
-        if bad:
-            ctx.mismatch('write', p['case'], bad)
+        if filemodel.tie_prone(p['state']):
+            ctx.count('corr.write_stage_skipped_rounding_tie')   # a time that is half a unit of its column: binary64 product decides
+        else:
+            bad = filemodel.compare_write(filemodel.decode_write(ow), p['tok'])
+            if bad:
+                ctx.mismatch('write', p['case'], bad)
         bad = filemodel.compare_read(filemodel.decode_read(orr), p['s3'])
         if bad:
             ctx.mismatch('read', p['case'], bad)
